@@ -63,3 +63,8 @@ M("c05-F11-revert-transfer-across-tasks", "C05", A, "CancelScope.__exit__",
   "                    self._parent_scope._pending_uncancellations += (\n                        self._pending_uncancellations\n                    )\n", ["R05-b"])
 
 M("c05-classifier-walks-any-exception", "C05", A, "is_anyio_cancellation", "        if isinstance(exc.__context__, CancelledError):\n            exc = exc.__context__\n            continue", "        if exc.__context__ is not None:\n            exc = exc.__context__\n            continue", ["R05-e"])
+
+# from seeded change C05/c (round 2)
+M("c05-exit-checkpoint-outside-try", "C05", A, "TaskGroup.__aexit__",
+  "            try:\n                if not self._tasks:\n                    # If there are no child tasks to wait on, run at least one checkpoint\n                    # anyway\n                    await AsyncIOBackend.cancel_shielded_checkpoint()\n\n                if self._tasks:",
+  "            if not self._tasks:\n                # If there are no child tasks to wait on, run at least one checkpoint\n                # anyway\n                await AsyncIOBackend.cancel_shielded_checkpoint()\n\n            try:\n                if self._tasks:", ["R05-f"])
